@@ -13,6 +13,7 @@ INVARIANT ClipCoversBins
 INVARIANT CoverLemma
 INVARIANT Observed
 INVARIANT FamiliesInside
+INVARIANT WindowLemma
 INVARIANT FitsInv
 CONSTRAINT Emit
 CHECK_DEADLOCK FALSE
